@@ -14,7 +14,7 @@ def gen(rng, tier):
         yield f"{'u' if flags & 1 else 't'} 1232 {cat} - {hx(req)}"
     n = 6000 if quick else 200000
     for _ in range(n):
-        yield srvgen.gen_case(rng, loaded=True, mutate_p=0.25)
+        yield srvgen.gen_case(rng, loaded=True, mutate_p=0.25, clean_p=0.3)
 
 
 def nontrivial(case, impl, model, oracle):
